@@ -1,8 +1,11 @@
 package main
 
 import (
+	"context"
 	"fmt"
 	"reflect"
+
+	godi "github.com/junioryono/godi/v4"
 )
 
 // Function-value kinds for C04: registrations realised by closures of one factory, method values
@@ -22,7 +25,6 @@ func closureFactory(slot int, tag string) any {
 	}
 	return func() (*S3, error) { return mk3(tag, true) }
 }
-
 
 // closureDepFactory: closures of ONE function literal per (slot, dependency) pair: registrations using the same pair
 // share the code pointer (and therefore the analysis cache entry) but carry their own tag
@@ -89,6 +91,25 @@ func kindValue(r *RegCfg) (any, error) {
 	tag := "K_" + r.Kind + "_" + r.ID
 	R.fnReg[tag] = r.ID
 	switch r.Kind {
+	case "reentrant":
+		// a constructor that USES the container it is handed: during its own construction it opens a child scope on the
+		// injected Scope and asks it for every singleton type (a start-up warm-up).  Singletons that are not built yet
+		// are refused (ErrSingletonNotInitialized); nothing is constructed on behalf of this nested use.
+		if len(r.Params) != 3 || r.Params[0].B != "ctx" {
+			return nil, fmt.Errorf("reg %s: reentrant kind takes the three built-ins", r.ID)
+		}
+		slot := r.Slot
+		return func(c context.Context, sc godi.Scope, p godi.Provider) (*S0, error) {
+			args := []argRec{argCtx(c), argScope(sc), argProv(p)}
+			if child, err := sc.CreateScope(nil); err == nil {
+				for _, t := range typS {
+					child.Get(t)
+				}
+				child.Close()
+			}
+			_ = slot
+			return mk0(tag, true, args...)
+		}, nil
 	case "closure":
 		if len(r.Params) == 1 {
 			if d, ok := slotOfType(r.Params[0].T); ok && r.Params[0].K == "-" && r.Params[0].G == "-" && !r.Params[0].Opt && r.Params[0].B == "-" {
